@@ -86,6 +86,11 @@ def get_spec(it, st, fr):
         cands = [v for v in c.loops.values() if getattr(v, "havoc", None) and set(v.havoc) <= written]
         if len(cands) == 1:
             return cands[0]
+        if not cands and len(c.loops) == 1:
+            # the function's only loop contract, and it havocs nothing (a search loop): it can only belong to this loop
+            only = next(iter(c.loops.values()))
+            if not getattr(only, "havoc", None):
+                return only
     return None
 
 
